@@ -308,7 +308,7 @@ func runDNSQ(a []string) string {
 		}
 	}
 	q := g(func() string {
-		if len(p) >= 18 && walkHitsSpecial(p) {
+		if len(p) >= 17 && walkHitsSpecial(p) {
 			return "unmodelled"
 		}
 		qq, off, err := packet.DecodeQuestion(p, 12, make([]byte, 0, 512))
